@@ -291,6 +291,11 @@ class World(WsWorld):
             copts["perMessageCompressionAccept"] = lambda r: PerMessageDeflateResponseAccept(r)
             if cfg["deflate"] != "offer-only":
                 sopts["perMessageCompressionAccept"] = lambda offers: PerMessageDeflateOfferAccept(offers[0])
+        if len(cfg["sversions"]) > 1 and ch.flag("versions-narrowed-then-widened", 0.25):
+            # the application configures the factory in two steps: first one version only, then the full list - the last
+            # valid configuration is the one in force
+            sfac.setProtocolOptions(versions=[list(cfg["sversions"])[ch.choose(len(cfg["sversions"]), "narrow-to")]])
+            self.run.probe("server-versions-reconfigured")
         sfac.setProtocolOptions(**sopts)
         cfac.setProtocolOptions(**copts)
         self.refused_reconfiguration(sfac, dict(versions=[13, 99]))
